@@ -578,7 +578,7 @@ def run_d8(facts, rep, tier):
         ins = c.fns.get(h["fn"], {}).get("inputs", [])
         if len(ins) < 2 or ins[0] != ins[1] or "schema" not in ins[0].lower():
             continue
-        cn = PCanon(c, h, 3)
+        cn = PCanon(c, h, 5)
         k_in = 0
         for blk, _ in walk(h["body"]):
             if blk.get("k") != "block":
@@ -593,8 +593,28 @@ def run_d8(facts, rep, tier):
                 if shape(t1) != shape(t2) or t1 == t2:
                     continue
                 n8 += 1
+                single = not (("$P0" in t1 and "$P1" in t1) or ("$P0" in t2 and "$P1" in t2))
+                if not single:
+                    rep.ob("C09.D8", "paired-lets-single-sided:%s#%d" % (h["fn"], k_in), False,
+                           "`%s` / `%s` are the per-operand halves of one computation, but `%s` draws on both operands: what belongs to one subschema (e.g. its additionalItems as padding for *its* shorter item list) is applied to the other's explicitly listed positions" % (psrc(s1["pat"]), psrc(s2["pat"]), (t1 if ("$P0" in t1 and "$P1" in t1) else t2)[-110:]), s1.get("sp"))
                 ok = swap_sides(t1, "#", "#") == t2
                 rep.ob("C09.D8", "paired-lets-mirror:%s#%d" % (h["fn"], k_in), ok, "`%s` and `%s` are mirror images" % (psrc(s1["pat"]), psrc(s2["pat"])) if ok else
                        "`%s` and `%s` compute the same thing for the two operands but are not mirror images (`%s` vs `%s`): one operand's member is used for both, so a constraint of the other side is lost and the result depends on subschema order" % (psrc(s1["pat"]), psrc(s2["pat"]), t1[-80:], t2[-80:]), s2.get("sp") or s1.get("sp"))
                 k_in += 1
+    # the same for the two halves of a `||` / `&&`: `f(a, b) || f(b, a)`, never the same half twice
+    for h in c.user_fns():
+        ins = c.fns.get(h["fn"], {}).get("inputs", [])
+        if len(ins) < 2 or ins[0] != ins[1] or "schema" not in ins[0].lower():
+            continue
+        cn = PCanon(c, h, 3)
+        k_in = 0
+        for n, _ in walk(h["body"]):
+            if n.get("k") == "bin" and n.get("op") in ("Or", "And"):
+                t1, t2 = cn.r(n["l"]), cn.r(n["r"])
+                if "$P0" in t1 and "$P1" in t1 and t1.replace("$P0", "$X").replace("$P1", "$X") == t2.replace("$P0", "$X").replace("$P1", "$X"):
+                    n8 += 1
+                    ok = swap_sides(t1, "#", "#") == t2
+                    rep.ob("C09.D8", "two-sided-test-mirrors:%s#%d" % (h["fn"], k_in), ok, "`x(a, b) %s x(b, a)`" % ("||" if n["op"] == "Or" else "&&") if ok else
+                           "the two halves of `%s` are %s: the test is made in one direction only, so the answer depends on which subschema comes first" % (src(n)[:80], "the same expression" if t1 == t2 else "not mirror images"), n.get("sp"))
+                    k_in += 1
     rep.floor("C09.D8", "pairs of lets computed per operand", n8, 1)
